@@ -527,7 +527,7 @@ def main(argv=None):
     finalize = None
     if not args.no_crosscheck:
         finalize = start_crosscheck(args.tier, runs)
-    return runner.run(factory, PROP, args.tier, runs, nworkers=args.workers, finalize=finalize)
+    return runner.run(factory, PROP, args.tier, runs, nworkers=args.workers, finalize=finalize, affinity=False)
 
 
 def start_crosscheck(tier, runs):
